@@ -90,6 +90,33 @@ def run(chk):
         if a != b:
             chk.disagree(mc, a[:600], b[:600], "layers/inflight")
     chk.sample(dict(case=cases[0][:300], impl=ci[0][:300], model=cm[0][:300]))
+    # the first requests of never-seen peers handed over back to back (every call() made before any future is polled):
+    # the count inside the wrapped service per peer must be what the model gives for the same arrivals one after the other
+    bursts, bmodels = [], []
+    for i in range(12 if quick else 120):
+        rng = chk.rng
+        mode, maxn, k, npeers = rng.choice(["block", "err"]), rng.choice([1, 1, 2, 3]), rng.randrange(2, 7), rng.randrange(1, 4)
+        bursts.append("inflightburst %s %d %d %d" % (mode, maxn, k, npeers))
+        bmodels.append("inflight %s %d %s" % (mode, maxn, " ".join("a%d.%d" % (p, (p - 1) * k + j) for p in range(1, npeers + 1) for j in range(k))))
+    for c, a, m in zip(bursts, run_impl("layers", bursts), run_model(bmodels)):
+        chk.evaluations += 1
+        chk.nontriv(c)
+        t = c.split()
+        mode, maxn, k = t[1], int(t[2]), int(t[3])
+        if a.startswith(("PANIC", "CRASH", "TIMEOUT", "HANG")):
+            chk.monitor_fail("inflight layer panicked / hung on a first burst", dict(case=c, impl=a))
+            continue
+        for tok in a.split():
+            p, rest = tok.split(":")
+            f = dict(x.split("=") for x in rest.split(","))
+            inside, refused = int(f["inside"]), int(f["refused"])
+            m_inside = len([x for x in m.split() if x.startswith("a%s." % p[1:]) and x.split(":")[1].startswith("E")])
+            if inside > maxn:
+                chk.monitor_fail("first burst of a new peer: %d requests of %s are inside the wrapped service, the limit is %d" % (inside, p, maxn), dict(case=c, impl=a))
+            elif (mode == "err" and refused != k - inside) or (mode == "block" and refused != 0):
+                chk.monitor_fail("first burst of a new peer: %d inside, %d refused of %d (mode %s)" % (inside, refused, k, mode), dict(case=c, impl=a))
+            elif inside != m_inside:
+                chk.disagree(c, a, m[:400], "layers/inflight-burst")
     chk.assumptions += ["tokio::sync::Semaphore is FIFO and hands a released permit to the queue head (modelled in Inflight.p_release; exercised, not proved)",
                         "each observation is taken after 50 yields on a current-thread runtime (quiescence)"]
     if not quick:
